@@ -1,7 +1,13 @@
 import KeepVerif.Model.C19
 import KeepVerif.Proofs.C19Wire
 /-!
-# C19: schema-directed round trip for flat message specs (core Lean only)
+# C19: schema-directed round trip for message specs (core Lean only)
+
+Generic over every schema (list of field number + kind; kinds: scalars, bytes, strings, repeated
+bytes / strings, packed repeated scalars, embedded messages, repeated embedded messages = map
+entries) and every value list admissible for it.  Embedded messages are values of kind
+`List Field`; their own schemas are applied by the `post` functions of the specs, so the theorem
+composes level by level (`unmarshalF_marshalF`).
 -/
 namespace KeepVerif.C19
 
@@ -10,6 +16,9 @@ theorem varints_append (a b : List Field) (num : Nat) :
 
 theorem lens_append (a b : List Field) (num : Nat) :
     lens (a ++ b) num = lens a num ++ lens b num := by simp [lens]
+
+theorem occs_append (a b : List Field) (num : Nat) :
+    occs (a ++ b) num = occs a num ++ occs b num := by simp [occs]
 
 theorem varints_of_ne (fs : List Field) (num : Nat) (h : ∀ f ∈ fs, f.1 ≠ num) :
     varints fs num = [] := by
@@ -33,12 +42,23 @@ theorem lens_of_ne (fs : List Field) (num : Nat) (h : ∀ f ∈ fs, f.1 ≠ num)
     simp only [lens, List.filterMap_cons] at ih' ⊢
     cases v <;> simp_all
 
+theorem occs_of_ne (fs : List Field) (num : Nat) (h : ∀ f ∈ fs, f.1 ≠ num) :
+    occs fs num = [] := by
+  induction fs with
+  | nil => rfl
+  | cons f fs ih =>
+    have hf : f.1 ≠ num := h f (by simp)
+    have ih' := ih (fun g hg => h g (by simp [hg]))
+    simp only [occs, List.filterMap_cons] at ih' ⊢
+    simp [hf, ih']
+
 /-- a declared field is decoded from its own occurrences only -/
 theorem decField_congr (fs fs' : List Field) (s : FSpec)
-    (hv : varints fs s.num = varints fs' s.num) (hl : lens fs s.num = lens fs' s.num) :
+    (hv : varints fs s.num = varints fs' s.num) (hl : lens fs s.num = lens fs' s.num)
+    (ho : occs fs s.num = occs fs' s.num) :
     decField fs s = decField fs' s := by
-  unfold decField lastVarint lastLen
-  rw [hv, hl]
+  unfold decField lastVarint lastLen u64s subMsg
+  rw [hv, hl, ho]
 
 theorem decField_frame (pre mid suf : List Field) (s : FSpec)
     (hp : ∀ f ∈ pre, f.1 ≠ s.num) (hs : ∀ f ∈ suf, f.1 ≠ s.num) :
@@ -46,6 +66,7 @@ theorem decField_frame (pre mid suf : List Field) (s : FSpec)
   apply decField_congr
   · rw [varints_append, varints_append, varints_of_ne pre _ hp, varints_of_ne suf _ hs]; simp
   · rw [lens_append, lens_append, lens_of_ne pre _ hp, lens_of_ne suf _ hs]; simp
+  · rw [occs_append, occs_append, occs_of_ne pre _ hp, occs_of_ne suf _ hs]; simp
 
 theorem encField_nums (s : FSpec) (v : Val) : ∀ f ∈ encField s v, f.1 = s.num := by
   intro f hf
@@ -53,6 +74,13 @@ theorem encField_nums (s : FSpec) (v : Val) : ∀ f ∈ encField s v, f.1 = s.nu
   | n v => unfold encField at hf; simp only at hf; split at hf <;> simp_all
   | b b => unfold encField at hf; simp only at hf; split at hf <;> simp_all
   | l xs =>
+    unfold encField at hf
+    simp only [List.mem_map] at hf
+    obtain ⟨b, _, rfl⟩ := hf
+    rfl
+  | ns xs => unfold encField at hf; simp only at hf; split at hf <;> simp_all
+  | m sub => cases sub <;> simp_all [encField]
+  | ms subs =>
     unfold encField at hf
     simp only [List.mem_map] at hf
     obtain ⟨b, _, rfl⟩ := hf
@@ -69,14 +97,26 @@ theorem encFlat_nums : ∀ (S : List FSpec) (vs : List Val), ∀ f ∈ encFlat S
       simp only [List.map_cons, List.mem_cons]
       exact Or.inr this
 
+/-- an embedded message value that can be put on the wire -/
+def SubOk (sub : List Field) : Prop := (∀ f ∈ sub, FieldOk f) ∧ (putFields sub).length < 2 ^ 64
+
+def OptSubOk : Option (List Field) → Prop
+  | none => True
+  | some sub => SubOk sub
+
 /-- value admissible for a declared field (what Go's typed struct can hold) -/
-def ValOk : FSpec → Val → Prop
-  | ⟨_, .u32⟩, .n v => v < 2 ^ 32
-  | ⟨_, .u64⟩, .n v => v < 2 ^ 64
-  | ⟨_, .i32⟩, .n v => v < 2 ^ 64
-  | ⟨_, .bytes⟩, .b b => b.length < 2 ^ 64
-  | ⟨_, .str⟩, .b b => b.length < 2 ^ 64 ∧ isUtf8 b = true
-  | ⟨_, .rbytes⟩, .l xs => ∀ b ∈ xs, b.length < 2 ^ 64
+def ValOk (s : FSpec) (v : Val) : Prop :=
+  match s.kind, v with
+  | .u32, .n v => v < 2 ^ 32
+  | .u64, .n v => v < 2 ^ 64
+  | .i32, .n v => v < 2 ^ 64
+  | .bytes, .b b => b.length < 2 ^ 64
+  | .str, .b b => b.length < 2 ^ 64 ∧ isUtf8 b = true
+  | .rbytes, .l xs => ∀ b ∈ xs, b.length < 2 ^ 64
+  | .rstr, .l xs => (∀ b ∈ xs, b.length < 2 ^ 64) ∧ xs.all isUtf8 = true
+  | .packed, .ns xs => (∀ x ∈ xs, x < 2 ^ 64) ∧ (xs.flatMap putVarint).length < 2 ^ 64
+  | .msg, .m sub => OptSubOk sub
+  | .rmsg _, .ms subs => ∀ sub ∈ subs, SubOk sub
   | _, _ => False
 
 /-- a value list matching a schema -/
@@ -97,34 +137,124 @@ theorem lens_map_len (num : Nat) (xs : List Bytes) :
     simp only [lens, List.map_cons, List.filterMap_cons] at ih ⊢
     simp [ih]
 
+theorem lens_map_sub (num : Nat) (subs : List (List Field)) :
+    lens (subs.map fun sub => ((num, WVal.len (putFields sub)) : Field)) num = subs.map putFields := by
+  have := lens_map_len num (subs.map putFields)
+  simpa [List.map_map, Function.comp_def] using this
+
+theorem mapM_parse_put (subs : List (List Field)) (h : ∀ sub ∈ subs, SubOk sub) :
+    (subs.map putFields).mapM parseMsg = some subs := by
+  induction subs with
+  | nil => rfl
+  | cons x xs ih =>
+    have hx := wire_roundtrip x (h x (by simp)).1
+    have ih' := ih (fun s hs => h s (by simp [hs]))
+    simp [List.mapM_cons, hx, ih']
+
+theorem putVarint_length_pos (n : Nat) : 0 < (putVarint n).length :=
+  List.length_pos_iff.2 (putVarint_ne_nil n)
+
+/-- a packed block decodes to the values it was built from -/
+theorem unpack_flatMap (xs : List Nat) : ∀ fuel, xs.length < fuel → (∀ x ∈ xs, x < 2 ^ 64) →
+    unpack fuel (xs.flatMap putVarint) = some xs := by
+  induction xs with
+  | nil =>
+    intro fuel h _
+    cases fuel with
+    | zero => omega
+    | succ k => simp [unpack]
+  | cons x xs ih =>
+    intro fuel h hx
+    cases fuel with
+    | zero => omega
+    | succ k =>
+      have hne : putVarint x ++ xs.flatMap putVarint ≠ [] := by
+        intro e; exact putVarint_ne_nil x (List.append_eq_nil_iff.1 e).1
+      simp only [List.flatMap_cons]
+      unfold unpack
+      rw [if_neg hne, varint_roundtrip x _ (hx x (by simp))]
+      simp only []
+      rw [ih k (by simp at h; omega) (fun y hy => hx y (by simp [hy]))]
+      rfl
+
+theorem length_le_flatMap_putVarint (xs : List Nat) : xs.length ≤ (xs.flatMap putVarint).length := by
+  induction xs with
+  | nil => simp
+  | cons x xs ih =>
+    have := putVarint_length_pos x
+    simp only [List.flatMap_cons, List.length_cons, List.length_append]
+    omega
+
+theorem u64s_single (num : Nat) (p : Bytes) (xs : List Nat)
+    (hu : unpack (p.length + 1) p = some xs) : u64s [(num, WVal.len p)] num = some xs := by
+  simp [u64s, occs, hu]
+
 theorem decField_encField (s : FSpec) (v : Val) (h : ValOk s v) :
     decField (encField s v) s = some v := by
   rcases s with ⟨num, k⟩
-  cases k <;> cases v <;> simp only [ValOk] at h
-  · rename_i x   -- u32
+  cases k with
+  | u32 =>
+    cases v <;> simp only [ValOk] at h
+    rename_i x
     by_cases hx : x = 0
     · subst hx; simp [decField, encField, lastVarint, varints]
     · have : x % 4294967296 = x := Nat.mod_eq_of_lt (by simpa using h)
       simp [decField, encField, lastVarint, varints, hx, this]
-  · rename_i x   -- u64
+  | u64 =>
+    cases v <;> simp only [ValOk] at h
+    rename_i x
     by_cases hx : x = 0
     · subst hx; simp [decField, encField, lastVarint, varints]
     · simp [decField, encField, lastVarint, varints, hx]
-  · rename_i x   -- bytes
+  | i32 =>
+    cases v <;> simp only [ValOk] at h
+    rename_i x
+    by_cases hx : x = 0
+    · subst hx; simp [decField, encField, lastVarint, varints]
+    · simp [decField, encField, lastVarint, varints, hx]
+  | bytes =>
+    cases v <;> simp only [ValOk] at h
+    rename_i x
     by_cases hx : x = []
     · subst hx; simp [decField, encField, lastLen, lens]
     · simp [decField, encField, lastLen, lens, hx]
-  · rename_i x   -- str
+  | str =>
+    cases v <;> simp only [ValOk] at h
+    rename_i x
     by_cases hx : x = []
     · subst hx; simp [decField, encField, lastLen, lens]
     · simp [decField, encField, lastLen, lens, hx, h.2]
-  · rename_i x   -- i32
-    by_cases hx : x = 0
-    · subst hx; simp [decField, encField, lastVarint, varints]
-    · simp [decField, encField, lastVarint, varints, hx]
-  · rename_i xs  -- rbytes
+  | rbytes =>
+    cases v <;> simp only [ValOk] at h
     simp only [decField, encField]
     rw [lens_map_len]
+  | rstr =>
+    cases v <;> simp only [ValOk] at h
+    simp [decField, encField, lens_map_len, h.2]
+  | packed =>
+    cases v <;> simp only [ValOk] at h
+    rename_i xs
+    by_cases hx : xs = []
+    · subst hx; simp [decField, encField, u64s, occs]
+    · have hu := unpack_flatMap xs ((xs.flatMap putVarint).length + 1)
+        (by have := length_le_flatMap_putVarint xs; omega) h.1
+      simp only [decField, encField, if_neg hx]
+      rw [u64s_single num _ xs hu]
+      rfl
+  | msg =>
+    cases v <;> simp only [ValOk] at h
+    rename_i sub
+    cases sub with
+    | none => simp [decField, encField, subMsg, lens]
+    | some sub =>
+      have hp := wire_roundtrip sub h.1
+      simp [decField, encField, subMsg, lens, hp]
+  | rmsg c =>
+    cases v <;> simp only [ValOk] at h
+    rename_i subs
+    simp only [decField, encField]
+    rw [lens_map_sub, mapM_parse_put subs h]
+    rfl
 
 theorem decFlat_encFlat_frame : ∀ (S : List FSpec) (vs : List Val) (pre : List Field),
     (S.map (·.num)).Nodup → Canon S vs → (∀ f ∈ pre, f.1 ∉ S.map (·.num)) →
@@ -151,8 +281,8 @@ theorem decFlat_encFlat_frame : ∀ (S : List FSpec) (vs : List Val) (pre : List
     rw [List.append_assoc] at h2
     simp [h2]
 
-/-- **schema-directed round trip** (generic over every flat schema and every admissible value
-    list): typed decoding of the proto3 encoding returns the values. -/
+/-- **schema-directed round trip** (generic over every schema and every admissible value list):
+    typed decoding of the proto3 encoding returns the values. -/
 theorem flat_roundtrip (S : List FSpec) (vs : List Val) (hS : SchemaOk S) (hc : Canon S vs) :
     decFlat S (encFlat S vs) = some vs := by
   have := decFlat_encFlat_frame S vs [] hS.1 hc (by simp)
@@ -165,17 +295,31 @@ theorem encField_fieldOk (s : FSpec) (v : Val) (hn : 1 ≤ s.num ∧ s.num ≤ 5
   have p32 : (2:Nat) ^ 32 < 2 ^ 64 := by decide
   cases v with
   | l xs =>
-    cases k <;> simp only [ValOk] at hv
-    unfold encField at hf
-    simp only [List.mem_map] at hf
-    obtain ⟨b, hb, rfl⟩ := hf
-    exact ⟨hn.1, hn.2, hv b hb⟩
+    cases k <;> simp only [ValOk] at hv <;>
+      (unfold encField at hf; simp only [List.mem_map] at hf; obtain ⟨b, hb, rfl⟩ := hf)
+    · exact ⟨hn.1, hn.2, hv b hb⟩
+    · exact ⟨hn.1, hn.2, hv.1 b hb⟩
   | n x =>
     cases k <;> simp only [ValOk] at hv <;>
       (unfold encField at hf; simp only at hf; split at hf) <;> simp_all [FieldOk] <;> omega
   | b x =>
     cases k <;> simp only [ValOk] at hv <;>
-      (unfold encField at hf; simp only at hf; split at hf) <;> simp_all [FieldOk] <;> omega
+      (unfold encField at hf; simp only at hf; split at hf) <;> simp_all [FieldOk]
+  | ns xs =>
+    cases k <;> simp only [ValOk] at hv
+    unfold encField at hf; simp only at hf; split at hf
+    · simp at hf
+    · simp only [List.mem_singleton] at hf; subst hf; exact ⟨hn.1, hn.2, hv.2⟩
+  | m sub =>
+    cases k <;> simp only [ValOk] at hv
+    cases sub with
+    | none => simp [encField] at hf
+    | some sub =>
+      simp only [encField, List.mem_singleton] at hf; subst hf; exact ⟨hn.1, hn.2, hv.2⟩
+  | ms subs =>
+    cases k <;> simp only [ValOk] at hv
+    unfold encField at hf; simp only [List.mem_map] at hf; obtain ⟨sub, hs, rfl⟩ := hf
+    exact ⟨hn.1, hn.2, (hv sub hs).2⟩
 
 theorem encFlat_fieldOk : ∀ (S : List FSpec) (vs : List Val),
     (∀ s ∈ S, 1 ≤ s.num ∧ s.num ≤ 536870911) → Canon S vs → ∀ f ∈ encFlat S vs, FieldOk f
@@ -187,21 +331,29 @@ theorem encFlat_fieldOk : ∀ (S : List FSpec) (vs : List Val),
     · exact encField_fieldOk s v (hn s (by simp)) hc.1 f hf
     · exact encFlat_fieldOk S vs (fun t ht => hn t (by simp [ht])) hc.2 f hf
 
-/-- **Unmarshal ∘ Marshal** for every flat message type: a value list that matches the schema
-    and that keep-core's validation accepts unchanged (`post vs = some vs`: well-formed and
-    already normalised) is decoded from its own encoding, and re-marshals to the same bytes. -/
+/-- field-list level (embedded messages): a value list that matches the schema and that the
+    validation accepts unchanged is reproduced from its own field list -/
+theorem unmarshalF_marshalF (M : MsgSpec) (vs : List Val) (hS : SchemaOk M.fields)
+    (hc : Canon M.fields vs) (hwf : M.post vs = some vs) :
+    M.unmarshalF (encFlat M.fields vs) = some (encFlat M.fields vs) := by
+  unfold MsgSpec.unmarshalF
+  simp [flat_roundtrip M.fields vs hS hc, hwf]
+
+/-- **Unmarshal ∘ Marshal** for every message type: a value list that matches the schema and
+    that keep-core's validation accepts unchanged (`post vs = some vs`: well-formed and already
+    normalised) is decoded from its own encoding, and re-marshals to the same bytes. -/
 theorem unmarshal_marshal (M : MsgSpec) (vs : List Val) (hS : SchemaOk M.fields)
     (hc : Canon M.fields vs) (hwf : M.post vs = some vs) :
     M.unmarshal (M.marshal vs) = some (M.marshal vs) := by
   unfold MsgSpec.unmarshal MsgSpec.marshal
   rw [wire_roundtrip _ (encFlat_fieldOk M.fields vs hS.2 hc)]
-  simp [flat_roundtrip M.fields vs hS hc, hwf]
+  simp [unmarshalF_marshalF M vs hS hc hwf]
 
 /-- an accepted input is the marshalling of a value list the validation produced -/
 theorem unmarshal_ok_post (M : MsgSpec) (bs out : Bytes) (h : M.unmarshal bs = some out) :
     ∃ fs vs vs', parseMsg bs = some fs ∧ decFlat M.fields fs = some vs ∧
       M.post vs = some vs' ∧ out = M.marshal vs' := by
-  unfold MsgSpec.unmarshal at h
+  unfold MsgSpec.unmarshal MsgSpec.unmarshalF at h
   cases h1 : parseMsg bs with
   | none => simp [h1] at h
   | some fs =>
